@@ -39,8 +39,22 @@ CORE = [
 TIER = ["quick"]
 
 
+def extra_terms():
+    """Graphs the catalogue does not contain: effects whose own parameters are options, combined with
+    the LABREA.EFFECTS.DISABLED switch (an effect that is switched off needs none of its options)."""
+    from ..optspace import ABSENT
+
+    de = ("ds", "de", {"params": [("opt", "A", ("val", 0))], "effects": [("effopt", "eo", "E")]})
+    spec = [("A", [ABSENT, 1]), ("E", [ABSENT, 1]), ("LABREA.EFFECTS.DISABLED", [ABSENT, True, False])]
+    out = [("extra:effect-with-option", de, spec)]
+    out.append(("extra:effect-with-option-nested", ("ds", "user", {"params": [de, ("opt", "B")]}), spec + [("B", [ABSENT, 2])]))
+    out.append(("extra:effect-with-option-in-switch", ("switch", ("optkey", "D"), [("x", de)], ("val", "dflt")), spec + [("D", [ABSENT, "x"])]))
+    out.append(("extra:effect-with-option-coalesce", ("coalesce", [de, ("val", "fallback")]), spec))
+    return out
+
+
 def cases(tier, seed):
-    out = []
+    out = [("extra",)]
     plan = [(0, None), (1, None), (2, None)]
     if tier == "thorough":
         plan.append((3, CORE))
@@ -174,6 +188,11 @@ def run_case(case):
     if case[0] == "one":
         _, label, term, dicts = case
         res["failures"] = check_term(label, term, dicts, res)
+        return res
+    if case[0] == "extra":
+        for label, term, spec in extra_terms():
+            res["terms"] += 1
+            res["failures"].extend(check_term(label, term, cat.dictionaries(spec), res))
         return res
     _, depth, ctxs, a, b = case[:5]
     TIER[0] = case[5] if len(case) > 5 else "quick"
